@@ -430,3 +430,40 @@ def h_raman_fiber(ctx, pumps, k, props):
         c01_obligations(ctx, si, 'ramanfiber')
     if 'C02' in props:
         c02_obligations(ctx, pre, si, 'ramanfiber', 'raman')
+
+
+def h_raman_fiber_pad(ctx, k=2):
+    """real RamanFiber.propagate with the Raman solver on, weak concrete channel powers (undepleted pump: the gain seen by the
+    signal does not depend on its power), symbolic signal/ASE/NLI split: the same span with an input pad of 3 dB delivers every
+    channel's signal component exactly 3 dB lower than without pad (the pad is part of the loss budget of a Raman span too)"""
+    from symx import npshim
+    from gnpy.core.info import SpectralInformation
+    npshim.object_constructors(False)
+    set_sim_params('gn_model_analytic', raman=True)
+    freqs = [193.0e12 + i * 1.0e12 for i in range(k)]
+    pump_list = [{'power': 0.2, 'frequency': 205.0e12, 'propagation_direction': 'counterprop'}]
+    s, a, n = [], [], []
+    for i in range(k):
+        si_ = ctx.real(f's{i}', lo=0, lo_strict=True, hi=1)
+        ai_ = ctx.real(f'a{i}', lo=0, hi=1)
+        ni_ = 1 - si_ - ai_
+        ctx.assume(ge(ni_, 0))
+        s.append(si_), a.append(ai_), n.append(ni_)
+    out = {}
+    for pad in (0.0, 3.0):
+        _, els = build_elements([{'uid': 'rf', 'type': 'RamanFiber', 'type_variety': 'SSMF',
+                                  'operational': {'temperature': 283, 'raman_pumps': pump_list},
+                                  'params': {'length': 80.0, 'loss_coef': 0.2, 'length_units': 'km', 'att_in': pad, 'con_in': 0.5, 'con_out': 0.5}}])
+        z = np.zeros(k)
+        si = SpectralInformation(frequency=np.array(freqs), baud_rate=np.full(k, 32e9), slot_width=np.full(k, 50e9),
+                                 pch=np.full(k, 1e-9), signal_ratio=arr(s), ase_ratio=arr(a), nli_ratio=arr(n),
+                                 roll_off=np.full(k, 0.15), chromatic_dispersion=z.copy(), pmd=z.copy(), pdl=z.copy(),
+                                 latency=z.copy(), delta_pdb_per_channel=z.copy(), tx_osnr=np.full(k, 40.0),
+                                 tx_power=np.full(k, 1e-9), label=np.array([f'ch{i}' for i in range(k)], dtype=object))
+        els['rf'].propagate(si)
+        out[pad] = [si.signal[i] for i in range(k)]
+    set_sim_params('gn_model_analytic', raman=False)
+    lin = 10 ** 0.3
+    for i in range(k):
+        ctx.prove(f'raman span: a 3 dB input pad lowers the delivered signal by 3 dB [{i}]', approx(out[0.0][i], out[3.0][i] * lin, 1e-5),
+                  info=dict(channel=i))
